@@ -55,6 +55,11 @@ def run_unit(unit):
             if mode == "UNROLL":
                 from pyvc.model2py import extract as _ex
                 ext = lambda eng, m, _q=qual: _ex(eng, m, _q)
+            if ob.kind == "probe":
+                # vacuity probe: must not be provable; a short budget is enough to see a contradiction
+                r = e.solve(ob, 4000)
+                out.setdefault("probes", []).append({"name": ob.name, "result": r, "time": round(ob.time, 3)})
+                continue
             r = e.solve(ob, unit.get("timeout_ms", 20000), want_model=(mode == "UNROLL"), extract=ext)
             rec = {"name": ob.name, "kind": ob.kind, "result": r, "time": round(ob.time, 3),
                    "backend": ob.backend, "reason": ob.reason, "line": ob.line,
